@@ -1,6 +1,6 @@
 CONSTANTS MaxMsgs = 1  SimMode = FALSE  OrderRule = TRUE
 INIT Init
 NEXT Next
-INVARIANT DefaultSavesNothing RoundTrip OrderIndependent
+INVARIANT DefaultSavesNothing RoundTrip OrderIndependent SerLaw
 CONSTRAINT Emit
 CHECK_DEADLOCK FALSE
